@@ -1149,3 +1149,120 @@ _run8 = run
 def run(ctx, rep, tier):
     _run8(ctx, rep, tier)
     _range_collapse_bounds(ctx, rep, tier)
+
+
+# ---------------------------------------------------------------------------------------------------------------- C18.s
+def _worklists_terminate(ctx, rep, tier):
+    """C18.s ('never hangs'): a worklist loop terminates if every element is queued at most once: each `W.put(E)` / `W.append(E)` inside the loop
+    that drains W is guarded by a membership test of that same E against a seen-container S (`E not in S` around it, or `... E in S ...: continue`
+    before it), and S is extended with E on that path (S.add(E), S[E] = .., or a helper called with E that stores S[<its parameter>])."""
+    model = ctx.model
+    rep.rule("C18.s", "worklist loops queue each element once: the growth is guarded by a membership test of the same element against a container that the element is added to")
+    n = 0
+    for q, f in pipeline(model).items():
+        for w in [x for x in walk_no_nested(f) if isinstance(x, ast.While)]:
+            t = ast.unparse(w.test)
+            m = re.fullmatch(r"(?:not (\w+)\.empty\(\)|(\w+))", t)
+            if not m:
+                continue
+            W = m.group(1) or m.group(2)
+            grows = [c for c in ast.walk(w) if isinstance(c, ast.Call) and isinstance(c.func, ast.Attribute) and c.func.attr in ("put", "append") and ast.unparse(c.func.value) == W and len(c.args) == 1]
+            for gcall in grows:
+                n += 1
+                E = ast.unparse(gcall.args[0])
+                seen = None
+                # (a) enclosing `if E not in S`
+                x = gcall
+                while x in model.parents and x is not w:
+                    child, x = x, model.parents[x]
+                    if isinstance(x, ast.If) and any(child is s_ or any(child is d for d in ast.walk(s_)) for s_ in x.body):
+                        mm = re.fullmatch(r"%s not in (\w+)" % re.escape(E), ast.unparse(x.test))
+                        if mm:
+                            seen = mm.group(1)
+                    # (b) an earlier sibling `if <..> or E in S: continue`
+                    for fld in ("body", "orelse"):
+                        lst = getattr(x, fld, None)
+                        if isinstance(lst, list) and child in lst:
+                            for st in lst[:lst.index(child)]:
+                                if isinstance(st, ast.If) and isinstance(st.body[-1], ast.Continue):
+                                    parts = [ast.unparse(v) for v in st.test.values] if isinstance(st.test, ast.BoolOp) and isinstance(st.test.op, ast.Or) else [ast.unparse(st.test)]
+                                    for part in parts:
+                                        mm = re.fullmatch(r"%s in (\w+)" % re.escape(E), part)
+                                        if mm:
+                                            seen = mm.group(1)
+                if seen is None:
+                    rep.bad("C18.s", q, f"{W}.{gcall.func.attr}({E})", f"`{ast.unparse(gcall)}` re-queues `{E}` without testing that very value against a seen-set: on a cyclic graph "
+                            "(a pattern that loops after finishing, e.g. /a+/) the walk never ends - the compiler hangs", line=gcall.lineno)
+                    continue
+                body_src = ast.unparse(w)
+                adds = f"{seen}.add({E})" in body_src or re.search(r"%s\[%s\] = " % (re.escape(seen), re.escape(E)), body_src) is not None
+                if not adds:
+                    # a helper called with E that stores seen[param]
+                    for c in ast.walk(w):
+                        if isinstance(c, ast.Call) and isinstance(c.func, ast.Name) and c.args and ast.unparse(c.args[0]) == E:
+                            hq = next((k for k in model.functions if k.endswith("." + c.func.id) and k.startswith(q.rsplit(".", 1)[0])), None) or next((k for k in model.functions if k.endswith("." + c.func.id)), None)
+                            if hq:
+                                hp = model.functions[hq].args.args[0].arg
+                                if re.search(r"%s\[%s\] = " % (re.escape(seen), re.escape(hp)), ast.unparse(model.functions[hq])):
+                                    adds = True
+                rep.check(adds, "C18.s", q, f"{W}.{gcall.func.attr}({E}) under a test against `{seen}`, which records it", f"`{E}` is tested against `{seen}` but never recorded there: it is queued again every time it is met", line=gcall.lineno)
+    if n < 3:
+        raise AnalysisError(f"C18.s: only {n} worklist growth sites found (floor 3)")
+
+
+_run9 = run
+
+
+def run(ctx, rep, tier):
+    _run9(ctx, rep, tier)
+    _worklists_terminate(ctx, rep, tier)
+
+
+# ---------------------------------------------------------------------------------------------------------------- C18.t / u / v / w
+def _round3_c18(ctx, rep, tier):
+    model, g = ctx.model, ctx.grammar
+    # C18.t sibling agreement of adopt_actions_from: (list of actions, node)
+    rep.rule("C18.t", "every adopt_actions_from returns (a list of actions, a node): callers extend / store the first element as a list")
+    n = 0
+    for cn, ci in model.classes.items():
+        f = ci.methods.get("adopt_actions_from")
+        if f is None:
+            continue
+        for r in [x for x in walk_no_nested(f) if isinstance(x, ast.Return) and x.value is not None]:
+            n += 1
+            ok = isinstance(r.value, ast.Tuple) and len(r.value.elts) == 2
+            first = ast.unparse(r.value.elts[0]) if ok else "?"
+            # (an empty tuple display is only ever returned together with the node itself - "nothing to adopt" - and is never stored as a clause's list)
+            ok = ok and not re.match(r"tuple\(", first) and not (isinstance(r.value.elts[0], ast.Tuple) and r.value.elts[0].elts)
+            rep.check(ok, "C18.t", f"{cn}.adopt_actions_from", f"returns ({first[:40]}, ..): a list", f"{cn}.adopt_actions_from hands its actions on as `{first[:50]}`, not a list: a consumer that extends the "
+                      "clause's actions (`case { .. -> { if b { n = 1; } } } n = 2;`) dies with AttributeError", line=r.lineno)
+    if n < 5:
+        raise AnalysisError(f"C18.t: only {n} adopt_actions_from returns found")
+    # C18.u the number terminals do not match a bare radix prefix / sign (the converter slices the prefix off and calls int())
+    rep.rule("C18.u", "number terminals: a bare radix prefix or sign is not a number (the converter would call int() on an empty string)")
+    for term, probes in (("RADIX_NUMBER", ["0b", "0x", "+0x", "-0x", "+", "-"]),):
+        rx = g.terminal_regex(term)
+        for pr in probes:
+            rep.check(re.fullmatch(rx, pr) is None, "C18.u", "grammar:" + term, f"{pr!r} is not a {term}", f"{pr!r} is accepted as a number by the grammar: _convert_int calls int('', base) -> ValueError")
+    # C18.v the column marker stays inside the line
+    rep.rule("C18.v", "the column marker of a diagnostic indexes the source line only within its length (line and column can come from different objects; the line may be unknown)")
+    q = "NMFUError._generate_whitespace_marker"
+    rep.check(model.has(q, "source_line = ProgramData.get_source_line(line) or ''") and model.has(q, "i < len(source_line) and source_line[i] == '\\t'") and "get_source_line(line)[" not in ast.unparse(model.func(q)),
+              "C18.v", q, "guarded indexing of the source line", "the marker indexes get_source_line(line)[i] for every i below the column: IndexError / TypeError when the column comes from another, longer line or the line is unknown")
+    # C18.w recursion limit
+    rep.rule("C18.w", "parse() and compile() turn RecursionError (statement sequences / nesting / macro expansion deeper than the interpreter allows) into an NMFUError")
+    dq = "diagnoses_recursion_limit"
+    okd = model.has_func(dq) and model.has(dq + ".wrapper", "try:\n    return function(*args, **kwargs)\nexcept RecursionError:\n    raise NMFUError($$a, $$m) from None") if model.has_func(dq) else False
+    rep.check(okd, "C18.w", dq, "decorator: RecursionError -> NMFUError", "no conversion of RecursionError into a diagnosed error")
+    for q in ("ParseCtx.parse", "DfaCompileCtx.compile"):
+        decs = [ast.unparse(d) for d in model.func(q).decorator_list]
+        rep.check(dq in decs, "C18.w", q, "decorated with diagnoses_recursion_limit", f"{q} lets RecursionError escape: a parser with ~1100 statements, or a recursive macro whose call is nested in blocks, "
+                  "ends in an internal exception")
+
+
+_run10 = run
+
+
+def run(ctx, rep, tier):
+    _run10(ctx, rep, tier)
+    _round3_c18(ctx, rep, tier)
